@@ -12,8 +12,8 @@ REGISTRY = {
         "engine": "engine_deser",
         "theorems": [(A + "AcceptThm", "Api.C01_accept"), (A + "AcceptThm", "Api.accepts_iff_conforms"), (A + "AcceptThm", "Api.compile_noFail"),
                      (A + "UnionSelThm", "Api.C01_accept_union"), (A + "AcceptUnionThm", "Api.C01_acceptU"), (A + "AcceptUnionThm", "Api.acceptsU"),
-                     (A + "AcceptThm", "Api.compile_noFailU"), (A + "AcceptThm", "Api.acc_accU"), (A + "ImageThm", "Api.C01_image_partial")],
-        "partial": "C01_acceptU: acceptance <=> `conforms` on Ty.accU (unions of any shape at any depth; sets, uniqueItems and field-level "
+                     (A + "AcceptThm", "Api.compile_noFailU"), (A + "AcceptThm", "Api.acc_accU"), (A + "AcceptThm", "Api.isOk_finishObj"), (A + "AcceptThm", "Api.depMissing_isEmpty"), (A + "ImageThm", "Api.C01_image_partial")],
+        "partial": "C01_acceptU: acceptance <=> `conforms` on Ty.accU (unions of any shape at any depth, dependent_required included; sets, uniqueItems and field-level "
                    "fall_back_on_default outside) for data with distinct keys and no crash-prone leaf; C01_accept: the same on Ty.acc (a union is only Optional) "
                    "for every datum with distinct keys; C01_image_partial: typed image on the index-keyed fragment",
         "assumptions": MODEL_ASSUMPTIONS,
@@ -22,7 +22,7 @@ REGISTRY = {
         "engine": "engine_deser",
         "theorems": [(A + "ErrorsThm", "Api.C02_errors_eq_partial"), (A + "ErrorsThm", "Api.errors_eq_violations"),
                      (A + "ObjErrorsThm", "Api.C02_object_level"), (A + "TablesThm", "Api.Tables.C02_error_templates")],
-        "partial": "list equation errors = violations on primitives / lists / tuples / NewTypes / annotations; per-object law (children = violating keys, "
+        "partial": "list equation errors = violations on primitives / lists / tuples / NewTypes / annotations; per-object law (children = violating keys, including `missing property (required by [...])` of dependent_required, "
                    "both directions) for ObjectMethod; order of name-keyed children, mappings and Optional not yet proved",
         "assumptions": MODEL_ASSUMPTIONS,
     },
